@@ -514,6 +514,7 @@ fn respond(line: &str) -> R {
                 ser_subs(&subs)?,
             ];
             if let Some(subs) = &subs {
+                out.push(leaf("Bool", if subs.is_expressible(&key) { "true" } else { "false" }));
                 let results = subs
                     .substitute(&key)
                     .map(|(bounded, trait_)| {
@@ -522,6 +523,7 @@ fn respond(line: &str) -> R {
                     .collect::<Result<Vec<_>, String>>()?;
                 out.push(node("Keys", "", results));
             } else {
+                out.push(leaf("None", ""));
                 out.push(leaf("None", ""));
             }
             Ok(join(out))
